@@ -10,6 +10,17 @@
 //	            prefixed, the reflection meta-names), multiplicities 0-3, any order, extension
 //	            statements at every level, one or two top-level statements
 //
+//	deviation   every sequence of up to three deviate kinds in one deviation, pairs/triples of deviations
+//
+// The call itself is varied too (pctx): every text goes to Modules.Parse by the plain call (fresh set,
+// default options, name t.yang) and in further contexts that must not influence the AST: every
+// combination of ParseOptions set before the call, a set that has already parsed other texts (0, 1,
+// several; accepted and rejected; under the same source name and under other names), Parse after
+// Process, other source names (the empty one among them).  In each context the modules the set holds
+// for the text afterwards (entries of ms.Modules / ms.SubModules that were not there before the call)
+// are read back: they must exist, one per top-level statement, be built from a statement tree equal
+// to the runner's own parse, and pass the mirror oracle; the model's answer does not depend on the context.
+//
 // Every tree is rendered to YANG text, parsed by the real generic parser (the statement tree the
 // builder sees goes to the model in wire form), and built by the real Modules.Parse.  The Go result
 // is read back by a reflection walk through the Node interface (Kind, NName, ParentNode, Statement,
@@ -1331,7 +1342,11 @@ func verdict(d *lib.Driver, c *tcase, ctx pctx, g goResult, model string) lib.Di
 	if ctx != defaultCtx {
 		how = " [" + ctx.brief()
 		if c.ctx == defaultCtx && c.g.out != g.out {
-			how += "; the plain call gives: " + short(c.g.out)
+			if strings.HasPrefix(c.g.out, "ok") && c.g.problem == "" {
+				how += "; the plain call: accepted"
+			} else {
+				how += "; the plain call: " + short(c.g.out)
+			}
 		}
 		how += "]"
 	}
@@ -1347,13 +1362,16 @@ func verdict(d *lib.Driver, c *tcase, ctx pctx, g goResult, model string) lib.Di
 		switch {
 		case g.problem != "":
 			dis.SpecVerdict = "violates"
-			dis.What = "Parse returned nil, but what the set holds for the text is not a one-to-one mirror of a statement tree that may be accepted" + how + ": " + g.problem + sp
+			dis.What = "accepted, but the set holds no one-to-one mirror of the text" + how + ": " + g.problem + sp
+			if acc == "false" {
+				dis.What = "a text that must be rejected was accepted" + how + ": " + g.problem + sp
+			}
 			if model == g.out {
 				dis.Kind = "spec"
 			}
 		case mir != "true":
 			dis.SpecVerdict = "violates"
-			dis.What = "Parse returned nil, but the built AST does not mirror the statement tree" + how + sp
+			dis.What = "accepted, but the built AST does not mirror the statement tree" + how + sp
 		case acc != "true":
 			dis.SpecVerdict = "violates"
 			dis.What = "a statement tree that must be rejected was accepted" + how + sp
